@@ -130,6 +130,12 @@ def sum_cases():
             cases += [f"sum(x for x in range({a}, {b}, {st}))", f"sum(x * x for x in range({a}, {b}, {st}))", f"sum([x + 1 for x in range({a}, {b}, {st})])"]
         cases += [f"sum(range({a}, {b}))", f"sum(x for x in range({a}, {b}))"] if a <= b else []
     cases += ["sum(x * a for a in range(10, 19, 2) for x in range(1, 9, 5))", "sum(x for x in range(1, n, 3))", "sum(x * x for x in range(0, n, 2))"]
+    # elements and generators that a computer-algebra reading gets wrong: bit operators, boolean / conditional elements, division,
+    # generators that depend on or shadow each other, empty iterables
+    cases += ["sum([1 << 3, 2])", "sum([6 & 3, 1])", "sum([6 | 3, 1])", "sum([6 ^ 3, 1])", "sum([7 // 2, 1])", "sum([7 % 4, 1])", "sum([1 - 2, 3 * 4])", "sum(x * y for x in range(3) for y in range(x))",
+              "sum(x for x in range(3) for x in range(4))", "sum(i and 2 for i in range(4))", "sum(i or 1 for i in range(4))", "sum(i if i else 1 for i in range(4))", "sum(i / 2 for i in range(5))",
+              "sum(i // 2 for i in range(5))", "sum(i % 2 for i in range(5))", "sum(i ^ 1 for i in range(4))", "sum(-i for i in range(4))", "sum(2 ** i for i in range(5))", "sum(x for x in ())", "sum([])",
+              "sum(i for i in range(10) if i > 12)", "sum(i == 1 for i in range(4))", "sum(i * k for i in range(3) for k in range(2))", "sum(n for i in range(4))", "sum(i for i in [1, 2, 2])", "sum(i for i in {1, 2, 2})"]
     cases += ["sum(range(5, 3))", "sum(range(n))", "sum(range(0, n))", "sum(x for x in range(n))", "sum(range(2, n))", "sum([n * x for x in range(3)])"]
     return cases
 
@@ -151,7 +157,7 @@ def eval_expr_case(args):
         out = []
         for env in envs:
             try:
-                v = eval(expr, {}, dict(env))
+                v = eval(expr, dict(env))      # names go in globals: a generator expression does not see a locals dict
                 out.append(sorted(v) if isinstance(v, set) else v)
             except Exception as ex:
                 out.append(type(ex).__name__)
